@@ -11,6 +11,8 @@ import (
 
 	"github.com/fsnotify/fsnotify"
 	"github.com/go-logr/logr"
+
+	"go.minekube.com/gate/pkg/internal/verifhook"
 )
 
 const debounceDuration = 100 * time.Millisecond
@@ -169,6 +171,7 @@ func runWatchLoop(
 	}
 	reconcile := func() {
 		current := fingerprint(configPath)
+		verifhook.Event("rw.reconcile", "path", configPath, "fp", current, "changed", current != observed)
 		if current == observed {
 			return
 		}
@@ -208,6 +211,7 @@ func runWatchLoop(
 			return
 		}
 		evaluated = candidate
+		verifhook.Event("rw.callback", "path", configPath, "fp", candidate)
 		start := time.Now()
 		if err := cb(); err != nil {
 			code := "read_failed"
@@ -246,6 +250,7 @@ func runWatchLoop(
 			reconcile()
 		case <-debounce:
 			debounce = nil
+			verifhook.Event("rw.fire", "path", configPath)
 			runCallback(observed)
 		case event, ok := <-events:
 			if !ok {
